@@ -1,7 +1,7 @@
 (* C02 — Unsealing accepts only the exact bytes, footer, assertion and key as sealed.
    Acceptance characterisations (iff) for every backend, and their corollaries.  "Accepted although
    modified" is never assumed impossible: the theorems hand over the explicit collision / forgery. *)
-From PV Require Import Bytes Result Pae PaeProofs Oracle Local Public LocalProofs PublicProofs TamperProofs.
+From PV Require Import Bytes Result Pae PaeProofs Oracle Local Public LocalProofs PublicProofs TamperProofs Base64 Text TextProofs.
 Local Open Scope string_scope.
 Local Open Scope list_scope.
 
@@ -155,6 +155,34 @@ Theorem C02_v2_tag_tamper : forall O, laws O -> forall key enc n c t t' f m,
   v2_local_unseal O key enc (n ++ c ++ t') f [] = Err CryptoError.
 Proof. exact v2_tag_tamper. Qed.
 
+(* ---- text level ("truncating or extending the token"): a token text that was extended, truncated or changed in
+        place either does not parse or carries other payload / footer bytes — to which the byte-level theorems above
+        apply.  The single exception, stated: one dot after a footer-less token is the same token. ---- *)
+Theorem C02_text_extension_changes_token :
+  forall (F : Type) (fdec : bytes -> option F) (hdr sfx pur s x : bytes) (t t' : token) (v v' : F),
+    parse_token fdec hdr sfx pur s = Ok (t, v) ->
+    parse_token fdec hdr sfx pur (s ++ x) = Ok (t', v') ->
+    x <> [] -> x <> [dot] -> t' <> t.
+Proof. intros F fdec hdr sfx pur s x t t' v v'. exact (@token_text_extension_changes_token F fdec hdr sfx pur s x t v t' v'). Qed.
+Theorem C02_text_truncation_changes_token :
+  forall (F : Type) (fdec : bytes -> option F) (hdr sfx pur s x : bytes) (t t' : token) (v v' : F),
+    parse_token fdec hdr sfx pur (s ++ x) = Ok (t, v) ->
+    parse_token fdec hdr sfx pur s = Ok (t', v') ->
+    x <> [] -> x <> [dot] -> t' <> t.
+Proof.
+  intros F fdec hdr sfx pur s x t t' v v' H1 H2 Hx Hd E.
+  exact (@token_text_extension_changes_token F fdec hdr sfx pur s x t' v' t v H2 H1 Hx Hd (eq_sym E)).
+Qed.
+Theorem C02_text_substitution_changes_token :
+  forall (F : Type) (fdec : bytes -> option F) (hdr sfx pur s1 s2 : bytes) (t t' : token) (v v' : F),
+    parse_token fdec hdr sfx pur s1 = Ok (t, v) ->
+    parse_token fdec hdr sfx pur s2 = Ok (t', v') ->
+    length s1 = length s2 -> s1 <> s2 -> t' <> t.
+Proof. intros F fdec hdr sfx pur s1 s2 t t' v v'. exact (@token_text_same_length_changes_token F fdec hdr sfx pur s1 s2 t v t' v'). Qed.
+
+Print Assumptions C02_text_extension_changes_token.
+Print Assumptions C02_text_truncation_changes_token.
+Print Assumptions C02_text_substitution_changes_token.
 Print Assumptions C02_v2_tag_tamper.
 Print Assumptions C02_v1_is_generic.
 Print Assumptions C02_v3_is_generic.
